@@ -43,6 +43,7 @@ type TLCOpts struct {
 	Coverage               bool
 	Seed                   int64
 	DFS                    bool // StateDeque
+	Cdot                   bool // enable action composition (\\cdot), used by trace specs with silent steps
 	ContinueAfterViolation bool
 }
 
@@ -113,6 +114,9 @@ func (e *Env) RunTLC(o TLCOpts) (*TLCResult, error) {
 	jto := "-Xss256m"
 	if o.DFS {
 		jto += " -Dtlc2.tool.queue.IStateQueue=StateDeque"
+	}
+	if o.Cdot {
+		jto += " -Dtlc2.tool.impl.Tool.cdot=true"
 	}
 	cmd.Env = append(cmd.Env, "JAVA_TOOL_OPTIONS="+jto)
 	for k, v := range o.Env {
